@@ -690,12 +690,15 @@ class ShutdownMon(Monitor):
                 if (op[0] == 'shutdown') != p.is_operational():
                     env = w.env
                     now0 = env._now
-                    env._events.remove(ev)
+                    queued = not getattr(ev, 'detached', False)
+                    if queued:
+                        env._events.remove(ev)
                     env._now = ev.time
                     from . import canon
                     self.noop = canon.digest(w.system)
                     env._now = now0
-                    env._events.insert(0, ev)
+                    if queued:
+                        env._events.insert(0, ev)
 
     def check_acct(self, w):
         for p in self.procs(w):
